@@ -15,6 +15,9 @@ package props
 //              proposal QC without any signer: the callee cannot know the collector)
 //   smr      : Smr.handleReceivedProposal on a real CHAINED_BFT_NEW_PROPOSAL_MSG (hook VerifHandleReceivedProposal);
 //              acceptance = the pacemaker is advanced with the justify QC / the proposal enters the qc tree
+//   collect  : Smr.handleReceivedVoteMsg on real CHAINED_BFT_VOTE_MSGs (hook VerifHandleReceivedVoteMsg): the local
+//              node is the collector; acceptance = it reaches "FULL VOTES" (advances its view / HighQC)
+//   tdpos, xpoa : the plugins' CheckMinerMatch on a block whose consensus storage carries the certificate
 //   vote     : DefaultSaftyRules.CheckVote on a single vote (the unit from which honest collectors build a QC)
 //   threshold: DefaultSaftyRules.CalVotesThreshold
 //
@@ -66,7 +69,7 @@ type c14Entry struct {
 
 // c14Cert is one generated certificate plus the way it is submitted.
 type c14Cert struct {
-	Path      string     `json:"path"`      // proposal | block | smr | vote | tdpos | xpoa
+	Path      string     `json:"path"`      // proposal | block | smr | collect | vote | tdpos | xpoa
 	N         int        `json:"n"`         // validator set in force for the certified view = Ring[0..N)
 	Collector int        `json:"collector"` // ring index of the collector the callee is told about, -1 = callee cannot know it
 	Entries   []c14Entry `json:"entries"`
@@ -593,16 +596,16 @@ func c14Eval(d c14Cert) (v c14Verdict, err error) {
 	}
 	v = c14Verdict{Accepted: acc, Detail: detail}
 	if d.Path == "vote" {
-		// a vote is accepted only if its (first) signature is a valid signature of a member over the voted id
+		// a vote is accepted only if it carries a valid signature of a member over the voted id (the code looks at
+		// the first signature only; the oracle does not insist on the position)
 		v.Need = 1
-		if len(d.Entries) > 0 {
-			first := d.Entries[0]
-			if first.Addr < d.N && c14EntryValid(first) {
+		for _, e := range d.Entries {
+			if e.Addr < d.N && c14EntryValid(e) {
 				v.Good = 1
 			}
 		}
 		if acc && v.Good < 1 {
-			return v, fmt.Errorf("vote accepted (%s) although its signature is not a valid signature of a member of the %d validators over the voted id: %s", detail, d.N, c14Describe(d))
+			return v, fmt.Errorf("vote accepted (%s) although it carries no valid signature of a member of the %d validators over the voted id: %s", detail, d.N, c14Describe(d))
 		}
 		return v, nil
 	}
@@ -852,9 +855,13 @@ func TestC14(t *testing.T) {
 	noExclude := os.Getenv("C14_NO_EXCLUDE") == "1"
 	thorough := hx.Tier() == "thorough"
 	failures := 0
+	violated := map[string]bool{}
 	fail := func(test, msg string, trace interface{}) {
 		failures++
-		c.Violate(test, msg, trace)
+		if !violated[test] { // keep the first (= smallest) failing certificate of an ascending enumeration
+			violated[test] = true
+			c.Violate(test, msg, trace)
+		}
 		if failures <= 5 {
 			t.Errorf("%s: %s", test, msg)
 		}
@@ -1028,7 +1035,7 @@ func TestC14(t *testing.T) {
 				[]c14Entry{{K: "wrongid", Addr: m, Key: m, Msg: 1}},
 				[]c14Entry{{K: "corrupted", Addr: m, Key: m, Sig: 2}},
 				[]c14Entry{{K: "foreignkey", Addr: m, Key: c14OutsiderB}},
-				// a bad first signature followed by a good one of another member: only a valid first one may pass
+				// a bad first signature followed by a good one of another member
 				[]c14Entry{{K: "corrupted", Addr: m, Key: m, Sig: 2}, {K: "valid", Addr: (m + 1) % n, Key: (m + 1) % n}},
 			)
 		}
@@ -1048,7 +1055,7 @@ func TestC14(t *testing.T) {
 				continue
 			}
 			v, err := c14Eval(d)
-			bad := len(es) == 0 || es[0].K != "valid" && es[0].K != "valid2"
+			bad := v.Good == 0 // no valid member signature at all: the vote must not pass
 			labels := []string{"path:vote"}
 			if v.Accepted {
 				labels = append(labels, "vote-accepted")
